@@ -240,19 +240,23 @@ def touchKey (st : St) (k : Key) : St :=
 /-- VolumeLocationList.Set -/
 def setLoc (l : List Nat) (s : Nat) : List Nat := if l.contains s then l else l ++ [s]
 
+/-- VolumeLayout.RegisterVolume -/
+def registerVolume (st0 : St) (v : VInfo) (s : Nat) : St :=
+  let k := v.key
+  let st := touchKey st0 k
+  let l := setLoc (locList st k v.id) s
+  -- the loop over the location list stops at the first read-only or unknown replica, removing the vid from writables
+  let bad := l.any fun dn => match st.toCore.volOf dn v.id with | some x => x.ro | none => true
+  let o := st.ov k v.id
+  { st with
+    locs := updK2 st.locs k v.id (some l)
+    wr := if bad then updK st.wr k ((st.wr k).erase v.id) else st.wr
+    -- deferred rememberOversizedVolume
+    ov := updK2 st.ov k v.id (if v.size ≥ st.limit then setLoc o s else o.erase s) }
+
 /-- Topology.RegisterVolumeLayout = VolumeLayout.RegisterVolume; EnsureCorrectWritables -/
 def registerLayout (st : St) (v : VInfo) (s : Nat) : St :=
-  let k := v.key
-  let st := touchKey st k
-  let l := setLoc (locList st k v.id) s
-  let st : St := { st with locs := updK2 st.locs k v.id (some l) }
-  -- the loop over the location list stops at the first read-only or unknown replica, removing the vid from writables
-  let bad := l.any fun dn => match volOf st dn v.id with | some x => x.ro | none => true
-  let st := if bad then removeWritable st k v.id else st
-  -- deferred rememberOversizedVolume
-  let o := st.ov k v.id
-  let st : St := { st with ov := updK2 st.ov k v.id (if v.size ≥ st.limit then setLoc o s else o.erase s) }
-  ensureWritables st k v.id
+  ensureWritables (registerVolume st v s) v.key v.id
 
 /-- Topology.UnRegisterVolumeLayout -/
 def unregisterLayout (st : St) (v : VInfo) (s : Nat) : St :=
@@ -263,9 +267,9 @@ def unregisterLayout (st : St) (v : VInfo) (s : Nat) : St :=
   | some l =>
     if l.contains s then
       let l' := l.erase s
-      let st : St := { st with locs := updK2 st.locs k v.id (some l'), ov := updK2 st.ov k v.id ((st.ov k v.id).erase s) }
-      let st := ensureWritables st k v.id
-      if l'.isEmpty then { st with locs := updK2 st.locs k v.id none } else st
+      let st1 : St := { st with locs := updK2 st.locs k v.id (some l'), ov := updK2 st.ov k v.id ((st.ov k v.id).erase s) }
+      let st2 := ensureWritables st1 k v.id
+      if l'.isEmpty then { st2 with locs := updK2 st2.locs k v.id none } else st2
     else st
 
 /-- VolumeLayout.SetVolumeUnavailable -/
